@@ -42,6 +42,9 @@ Definition should_warn_ref (err : option unit) (lvl : Z) : bool :=
 Definition bridge_admit_ref (f_enabled : Z -> bool) (s_lvl s_l_level : Z) : bool :=
   s_l_level <=? s_lvl.
 
+(* the admission test as the repaired source has it (Adapters.fix_bridge = true): the fall-back of the site *)
+Definition bridge_admit_now (f_enabled : Z -> bool) (s_lvl s_l_level : Z) : bool := f_enabled s_lvl.
+
 Definition handler_enabled_ref (m : list (Z * Z)) (f_enabled : Z -> bool) (lvl : Z) : bool :=
   match lookupZ m lvl with Some l => f_enabled l | None => true end.
 Definition convert_logslog_level_ref (m : list (Z * Z)) (lvl : Z) : Z :=
